@@ -143,6 +143,12 @@ def _env_body(draw):
         body["DEFAULTS"] = "PATH"
         if draw(st.booleans()):
             body["PATH"] = "/my/bin:$PATH"
+    if draw(st.integers(0, 3)) == 0:
+        # a chain of references inside the environment, listed in a drawn order (its resolution must not depend on it)
+        chain = [("C15_ROOT", "/opt/tools"), ("C15_BIN", "$C15_ROOT/bin"), ("C15_WRAP", "${C15_BIN}/wrap"),
+                 ("C15_CMD", "$C15_WRAP --go")][:draw(st.integers(2, 4))]
+        items = list(body.items()) + list(draw(st.permutations(chain)))
+        body = dict(draw(st.permutations(items)))
     return body
 
 
@@ -173,6 +179,16 @@ def flowir_spec(draw):
         if draw(st.integers(0, 3)) == 0:
             s = draw(st.integers(0, nstages - 1))
             pkgvars["ds"].setdefault(str(s), {})[k] = "stage%d-%s" % (s, k)
+    derived = None
+    if nstages >= 2 and used and draw(st.integers(0, 2)) == 0:
+        # a stage variable whose value refers to a variable that ANOTHER stage overrides (stage scopes are private)
+        k = draw(st.sampled_from(used))
+        s2 = draw(st.integers(0, nstages - 1))
+        s1 = draw(st.sampled_from([x for x in range(nstages) if x != s2]))
+        pkgvars["ds"].setdefault(str(s1), {})[k] = "stage%d-%s" % (s1, k)
+        pkgvars["ds"].setdefault(str(s2), {}).pop(k, None)
+        pkgvars["ds"][str(s2)]["derived"] = "%%(%s)s-sauce" % k
+        derived = draw(st.sampled_from([i for i, c in enumerate(comps) if c["stage"] == s2]))
     # environments (>= 2 most of the time)
     nenv = draw(st.sampled_from([0, 1, 2, 2, 2, 3]))
     env_names = draw(st.lists(st.sampled_from(ENV_NAMES), min_size=nenv, max_size=nenv, unique=True))
@@ -227,6 +243,8 @@ def flowir_spec(draw):
         else:
             kg.append(k)
     varfiles, varorder = draw(variable_files(kg, kst, numeric))
+    if derived is not None:
+        uses[derived] = uses[derived] + ["derived"]        # (after the variable files: they never set it)
     return {"kind": "flowir", "W": W, "platform": platform, "uses": uses, "pkgvars": pkgvars, "envs": envs,
             "comp_env": comp_env, "layout": layout, "dirs": dirs, "dirrefs": dirrefs, "manifest": manifest,
             "varfiles": varfiles, "varorder": varorder}
